@@ -47,6 +47,21 @@ def load_known():
     return json.load(open(p)).get('findings', [])
 
 
+FLAG_MEANING = {
+    'REAL_FLOAT': 'floating-point numbers are mathematical reals',
+    'FREE_TENSOR_SYMBOLS': 'tensors are free symbols of any dimensions (einsum-term normal form); only the wiring is decided',
+    'SVD_AS_EXACT_FACTORISATION': 'tensornetwork.split_node_full_svd is replaced by an exact factorisation (u = the node with its right legs merged, '
+                                  's and vh identities); what is proved holds when nothing is truncated, isometry of u / vh is not available',
+    'ENUMERATED_NUMBER_OF_SITES': 'the number of sites / list lengths is enumerated over the stated range (bounded in that number, unbounded in every dimension)',
+    'ELEMENTWISE_SYMPY': 'arrays are one generic element (sympy expression in the indices) per region and diagonal case; identities decided by sympy (trusted)',
+    'GENERIC_SYMBOLS': 'a difference of the declared generic symbols (e.g. two frequencies) that does not simplify to zero is taken as non-zero; '
+                       'their coincidence is a configuration of its own',
+    'COMPREHENSION_MAP': 'a comprehension over a symbolic-length sequence is an element-wise map (its element expression must be effect free)',
+    'INVARIANT_NAMES_REMAPPED': 'loop-carried locals named in an invariant template were re-bound to renamed locals of the code (checked, not assumed)',
+    'NP_ARRAY_IS_VALUE_COPY': 'np.array(x) of an array is an equal array (aliasing is the subject of C20)',
+}
+
+
 def match_known(known, prop, ob):
     for k in known:
         if k.get('status') != 'open' or k.get('property') != prop:
@@ -309,7 +324,7 @@ def main(argv=None):
                      n_dis, n_ob, sum(1 for _, ob in refuted if match_known(known, prop, ob)),
                      sum(1 for _, ob in refuted if not match_known(known, prop, ob)), len(unknown)))
     trusted = list(meta.get('trusted_base', [])) + \
-        ['assumption flag ' + f for f in sorted(flags)] + \
+        ['assumption flag ' + f + (': ' + FLAG_MEANING[f.split('[')[0]] if f.split('[')[0] in FLAG_MEANING else '') for f in sorted(flags)] + \
         ['library contract (assumed): ' + l for l in sorted(lib_used)] + \
         ['library function treated as pure uninterpreted function: ' + l for l in sorted(lib_pure)]
     samples = []
